@@ -238,8 +238,8 @@ impl PeerHandler {
                         break;
                     }
                 },
-                Ok(frame) = self.connection.recv_frame() => {
-                    if self.handle_frame(frame).await? == false {
+                frame = self.connection.recv_frame() => {
+                    if self.handle_frame(frame?).await? == false {
                         break;
                     }
                 }
